@@ -242,6 +242,9 @@ func checkC12(c C12Case) Result {
 										r.Fail("hover-literal-missing:constructor-in-conditional-branch", "%s inside the literal %d-%d (%s), which lies in a list / object constructor that is a branch of a conditional: no hover data\n%s", cl, lt.Start, lt.End, lt.Type, clip(f.Text, 700))
 									} else if !got {
 										r.Fail("hover-literal-missing", "%s inside the literal %d-%d (%s) of a value that fits its constraint (%s): no hover data (err %v)\n%s", cl, lt.Start, lt.End, lt.Type, as.Cons.K, res.Err, clip(f.Text, 700))
+									} else if (hd.Range.Start.Byte != lt.Start || hd.Range.End.Byte != lt.End) && constructorInConditionalBranch(loc.Attr.Expr, lt.Start, lt.End) {
+										// same root cause: under "any type" the constructor is described as one literal
+										r.Fail("hover-literal-not-innermost:constructor-in-conditional-branch", "%s inside the literal %d-%d (%s), which lies in a list / object constructor that is a branch of a conditional: hover range %d-%d is the enclosing constructor, not that literal (content %q)\n%s", cl, lt.Start, lt.End, lt.Type, hd.Range.Start.Byte, hd.Range.End.Byte, clip(hd.Content.Value, 200), clip(f.Text, 700))
 									} else if hd.Range.Start.Byte != lt.Start || hd.Range.End.Byte != lt.End {
 										r.Fail("hover-literal-not-innermost", "%s inside the literal %d-%d (%s): hover range %d-%d is not that literal (content %q)\n%s", cl, lt.Start, lt.End, lt.Type, hd.Range.Start.Byte, hd.Range.End.Byte, clip(hd.Content.Value, 200), clip(f.Text, 700))
 									}
